@@ -117,8 +117,8 @@ private theorem unpackGo_packJGo (d : DT) : ∀ (items : List JItem) (i off : Na
 
 /-- modelled domain + well-formedness for the ragged strategy: the entry is None / empty, or
 contributes one rectangular block of dtype `d` whose data length matches its shape
-(excludes ragged nested lists, which `JaggedArray.__init__` flattens — see findings.d/C05.txt —, and the
-entries it refuses with an exception: 0-d arrays and, since fix 8558ef4, numpy-bool / str scalars and dicts). -/
+(excludes exactly the entries `JaggedArray.__init__` refuses with an exception: 0-d arrays, since fix 8558ef4
+numpy-bool / str scalars and dicts, since fix 49d3d18 ragged nested lists). -/
 def JGood (d : DT) (e : Entry) : Prop :=
   match classifyJ e with
   | .none => True
@@ -668,12 +668,6 @@ private theorem exists_of_not_all {α} (p : α → Bool) : ∀ (l : List α), ¬
       obtain ⟨e, he, hpe⟩ := ih this
       exact ⟨e, List.mem_cons_of_mem _ he, hpe⟩
 
-/-- the one remaining exclusion of the ragged strategy: a Python list of lists must be rectangular
-(`JaggedArray` flattens a ragged one and stores an int instead of a shape: written, unreadable — known finding) -/
-def NoRaggedNest : Entry → Prop
-  | .list2 _ _ rows => (rectangular rows).isSome = true
-  | _ => True
-
 private theorem packJGo_no_err : ∀ (items : List JItem) (i off : Nat) (p : JPacked),
     packJGo items i off = some p → ∀ it ∈ items, it ≠ JItem.err := by
   intro items
@@ -696,8 +690,8 @@ private theorem packJGo_no_err : ∀ (items : List JItem) (i off : Nat) (p : JPa
       · simp
       · exact ih _ _ _ hp' it hr
 
-/-- in the modelled domain, whatever `JaggedArray.__init__` does not refuse (and is not a ragged nested list) is `JGood` -/
-private theorem jgood_of_wf (np : Bool) (d : DT) (e : Entry) (hwf : EntryWF np d e) (hn : NoRaggedNest e)
+/-- in the modelled domain, whatever `JaggedArray.__init__` does not refuse is `JGood` -/
+private theorem jgood_of_wf (np : Bool) (d : DT) (e : Entry) (hwf : EntryWF np d e)
     (hne : classifyJ e ≠ JItem.err) : JGood d e := by
   cases e with
   | none => simp [JGood, classifyJ]
@@ -726,13 +720,13 @@ private theorem jgood_of_wf (np : Bool) (d : DT) (e : Entry) (hwf : EntryWF np d
     · simp [hz, hwf, prod]
   | list2 t dt rows =>
     simp only [EntryWF] at hwf
-    simp only [NoRaggedNest] at hn
+    simp only [classifyJ] at hne
     simp only [JGood, classifyJ]
     by_cases hz : rows.length = 0
     · simp [hz]
-    · simp only [hz, if_false]
+    · simp only [hz, if_false] at hne ⊢
       cases hr : rectangular rows with
-      | none => simp [hr] at hn
+      | none => simp [hr] at hne
       | some m => simp [hwf, prod, rectangular_len rows m hr]
 
 /-- guard for the sentinel strategy inside the main theorem: when a None is present next to scalars, no
@@ -745,12 +739,10 @@ values in the modelled domain (one dtype `d`, well-formed arrays, no dict — di
 `_writeParams` accepts the list (any of its strategies: plain array, None sentinels, ragged) then
 `_readParams` returns exactly the documented normalisation of the original list: same values, shapes,
 dtype and None positions. Hence an in-domain list is either rejected / skipped at write time or read back
-faithfully — never "accepted but different". Only two exclusions remain after fix 8558ef4 (JaggedArray now
-refuses what it used to drop): `hn` — no ragged list-of-lists (flattened, then unreadable: known finding) — and
-`hs` — no value equal to the None sentinel next to a None. -/
+faithfully — never "accepted but different". One exclusion remains after fixes 8558ef4 and 49d3d18 (JaggedArray now
+refuses what it used to drop or flatten): `hs` — no value equal to the None sentinel next to a None. -/
 theorem write_read_faithful (xs : List Entry) (np : Bool) (d : DT)
     (hwf : ∀ e ∈ xs, EntryWF np d e)
-    (hn : ∀ e ∈ xs, NoRaggedNest e)
     (hs : NoSentinel d xs)
     (st : Stored) (h : writeParam xs = .ok st) :
     readParam xs.length st = some (xs.map (normalise (jaggedTest xs))) := by
@@ -763,7 +755,7 @@ theorem write_read_faithful (xs : List Entry) (np : Bool) (d : DT)
       rw [hjag]
       have hgood : ∀ e ∈ xs, JGood d e := by
         intro e he
-        apply jgood_of_wf np d e (hwf e he) (hn e he)
+        apply jgood_of_wf np d e (hwf e he)
         have hw := h
         unfold writeJagged at hw
         split at hw
@@ -1376,9 +1368,8 @@ example : (match writeParam [.scal false .i64 (.i (-9223372036854775806)), .none
     | .ok st => readParam 3 st | _ => Option.none) = some [.none, .none, .scal .i64 (.i 4)] := by
   decide +kernel
 
-/-- excluded point `NoRaggedNest`: two-level ragged nesting is written and cannot be read (known finding) -/
-example : (match writeParam [.list2 false .i64 [[.i 1, .i 2], [.i 3]], .list2 false .i64 [[.i 4], [.i 5, .i 6], [.i 7]]] with
-    | .ok st => readParam 2 st | _ => some []) = Option.none := by
+/-- since fix 49d3d18 two-level ragged nesting is refused at write time (before: written, unreadable) -/
+example : writeParam [.list2 false .i64 [[.i 1, .i 2], [.i 3]], .list2 false .i64 [[.i 4], [.i 5, .i 6], [.i 7]]] = .reject := by
   decide +kernel
 
 /-- since fix 8558ef4 a numpy bool scalar, a str scalar or a dict among ragged entries is refused at write time -/
